@@ -156,6 +156,8 @@ pub fn run(spec: &RunSpec, ty: &dyn TyObj, want_log: bool) -> RunResult {
     let mut nontrivial = false;
     let mut calls_total = 0u64;
     let mut clusters: BTreeMap<(u8, Vec<u8>, Vec<u8>, usize), Cluster> = BTreeMap::new();
+    // complete contiguous fibres seen by fibre walks: config -> (value, accepted words, first word, last word, op)
+    let mut walked: BTreeMap<(u8, Vec<u8>, Vec<u8>), Vec<(Vec<u8>, u64, Vec<u8>, Vec<u8>, usize)>> = BTreeMap::new();
     let mut mat = spec.clone();
     let width = ty.bytes();
     let signed = ty.signed();
@@ -199,6 +201,120 @@ pub fn run(spec: &RunSpec, ty: &dyn TyObj, want_log: bool) -> RunResult {
                     }
                 }
                 mat_calls = op.calls.clone();
+            }
+            OpKind::FibreWalk { low, high, inclusive, via, start, up, fibres, max_steps } => {
+                let high_incl = if *inclusive { high.clone() } else { refint::add_small(high, -1) };
+                bump(&mut counters, "op_fibre_walk");
+                let sampler = if *via == 2 {
+                    match guarded(|| ty.uniform(low, high, *inclusive, crate::types::Ctor::Val)) {
+                        Ok(s) => Some(s),
+                        Err(pc) => {
+                            viol.push(Violation { class: "panic", op: oi, call: 0, detail: format!("constructing the sampler for [{} , {}] panicked: {:?}", hex(low), hex(high), pc) });
+                            continue;
+                        }
+                    }
+                } else {
+                    None
+                };
+                let entry: u8 = if *via == 2 { 0 } else { 1 };
+                let mut w = start.clone();
+                // fibres in walk order: (value, accepted count, first word, last word)
+                let mut runs: Vec<(Vec<u8>, u64, Vec<u8>, Vec<u8>)> = Vec::new();
+                let mut contiguous = true;
+                let mut hit_end = false;
+                let mut steps = 0u32;
+                let mut aborted = false;
+                let at_edge_start = if *up { refint::is_zero(start) } else { start.iter().all(|&b| b == 0xFF) };
+                while steps < *max_steps {
+                    steps += 1;
+                    calls_total += 1;
+                    let plan = [Plan::Fixed(w.clone())];
+                    let st = rng.begin_call(&plan);
+                    let r = match *via {
+                        0 => guarded(|| ty.gen_range(low, high, *inclusive, &mut rng, op.dynamic)),
+                        1 => guarded(|| ty.sample_single(low, high, *inclusive, false, &mut rng, op.dynamic)),
+                        _ => {
+                            let s = sampler.as_ref().unwrap();
+                            guarded(|| s.sample(&mut rng, op.dynamic))
+                        }
+                    };
+                    let evs = &rng.events[st..];
+                    let _ = check_panic(&r, evs, oi, steps as usize - 1, &mut viol, &mut counters);
+                    for e in evs {
+                        fp.u(e.req as u64);
+                        if let Resp::Ok(b) = &e.resp {
+                            fp.b(b);
+                        }
+                    }
+                    *counters.entry("draw_requests").or_insert(0) += evs.len() as u64;
+                    let Ok(v) = r else {
+                        aborted = true;
+                        break;
+                    };
+                    fp.b(&v);
+                    if v.len() != width || !refint::in_range(signed, low, &high_incl, &v) {
+                        viol.push(Violation { class: "membership", op: oi, call: steps as usize - 1, detail: format!("fibre walk: first word {} returned {} outside [{}, {}]", hex(&w), hex(&v), hex(low), hex(&high_incl)) });
+                        aborted = true;
+                        break;
+                    }
+                    if evs.len() == 1 {
+                        // accepted as the only word of the call
+                        let key = (entry, low.clone(), high_incl.clone(), w.len());
+                        let c = clusters.entry(key).or_insert_with(|| Cluster { signed, fibres: BTreeMap::new(), first: (oi, 0) });
+                        c.fibres.entry(v.clone()).or_default().insert(w.clone());
+                        match runs.last_mut() {
+                            Some(last) if last.0 == v => {
+                                last.1 += 1;
+                                last.3 = w.clone();
+                            }
+                            Some(last) => {
+                                // the next fibre must belong to the adjacent value
+                                let expect = refint::add_small(&last.0, if *up { 1 } else { -1 });
+                                if v != expect {
+                                    contiguous = false;
+                                }
+                                runs.push((v.clone(), 1, w.clone(), w.clone()));
+                            }
+                            None => runs.push((v.clone(), 1, w.clone(), w.clone())),
+                        }
+                        if runs.len() > *fibres as usize + 1 {
+                            break;
+                        }
+                    }
+                    let nw = refint::add_small(&w, if *up { 1 } else { -1 });
+                    let wrapped = if *up { refint::is_zero(&nw) } else { nw.iter().all(|&b| b == 0xFF) };
+                    if wrapped {
+                        hit_end = true;
+                        break;
+                    }
+                    w = nw;
+                }
+                if want_log {
+                    log.push(format!("op {} fibre_walk from {} {} over {} step(s): {}", oi, hex(start), if *up { "upward" } else { "downward" }, steps, runs.iter().map(|r| format!("{}x{}", hex(&r.0), r.1)).collect::<Vec<_>>().join(" ")));
+                }
+                nontrivial = true;
+                states.insert(state_tuple(type_tag, 7, op.shape, runs.len() as u64, 0, steps as usize, if aborted { 6 } else { 1 }));
+                if aborted {
+                    continue;
+                }
+                if !contiguous {
+                    // consecutive words do not map to consecutive values: the contiguous-fibre reading does not
+                    // apply to this sampler; nothing is concluded
+                    bump(&mut counters, "fibre_walk_inapplicable");
+                    continue;
+                }
+                // a fibre is complete when both of its ends were seen: the walk entered it from the neighbouring
+                // value (or started at the edge of the word space) and left it into the next value (or hit the end)
+                let n = runs.len();
+                for (i, rn) in runs.iter().enumerate() {
+                    let opened = i > 0 || at_edge_start;
+                    let closed = i + 1 < n || hit_end;
+                    if opened && closed {
+                        bump(&mut counters, "probe_complete_fibres_counted");
+                        let (first, last) = if *up { (rn.2.clone(), rn.3.clone()) } else { (rn.3.clone(), rn.2.clone()) };
+                        walked.entry((entry, low.clone(), high_incl.clone())).or_default().push((rn.0.clone(), rn.1, first, last, oi));
+                    }
+                }
             }
             OpKind::Gen => {
                 for (ci, plan) in op.calls.iter().enumerate() {
@@ -438,6 +554,31 @@ pub fn run(spec: &RunSpec, ty: &dyn TyObj, want_log: bool) -> RunResult {
         }
     }
 
+    // exact fibre sizes at any width: every complete contiguous fibre of one sampler configuration must
+    // have the same number of accepted words
+    for ((_e, low, high_incl), fs) in walked.iter() {
+        let mut by_value: BTreeMap<&Vec<u8>, &(Vec<u8>, u64, Vec<u8>, Vec<u8>, usize)> = BTreeMap::new();
+        for f in fs.iter() {
+            by_value.entry(&f.0).or_insert(f);
+        }
+        let mn = by_value.values().min_by_key(|f| f.1).unwrap();
+        let mx = by_value.values().max_by_key(|f| f.1).unwrap();
+        if by_value.len() >= 2 {
+            bump(&mut counters, "fibre_walk_configs_compared");
+        }
+        if mn.1 != mx.1 {
+            viol.push(Violation {
+                class: "fibre_sizes_differ",
+                op: mn.4,
+                call: 0,
+                detail: format!(
+                    "range [{}, {}]: value {} is produced by exactly {} accepted words (the contiguous words {}..={} , bounded on both sides by the neighbouring values) but value {} by exactly {} (words {}..={})",
+                    hex(low), hex(high_incl), hex(&mn.0), mn.1, hex(&mn.2), hex(&mn.3), hex(&mx.0), mx.1, hex(&mx.2), hex(&mx.3)
+                ),
+            });
+        }
+    }
+
     mat.fresh_seed = spec.fresh_seed;
     RunResult {
         violations: viol,
@@ -571,9 +712,14 @@ pub fn valid(spec: &RunSpec, ty: &dyn TyObj) -> bool {
     let w = ty.bytes();
     for op in &spec.ops {
         match &op.kind {
-            OpKind::GenRange { low, high, inclusive } | OpKind::Single { low, high, inclusive, .. } | OpKind::Uniform { low, high, inclusive, .. } => {
+            OpKind::GenRange { low, high, inclusive } | OpKind::Single { low, high, inclusive, .. } | OpKind::Uniform { low, high, inclusive, .. } | OpKind::FibreWalk { low, high, inclusive, .. } => {
                 if low.len() != w || high.len() != w {
                     return false;
+                }
+                if let OpKind::FibreWalk { start, .. } = &op.kind {
+                    if start.len() != w {
+                        return false;
+                    }
                 }
                 let c = refint::cmp(ty.signed(), low, high);
                 if c == Greater || (c == Equal && !*inclusive) {
